@@ -199,6 +199,18 @@ def check(tier):
                 "let x = y\nlet y = x\nfrom t | select {x}", "from t | loop (loop (take 1))", "from t | loop (from t | loop (take 1))", "module std { let sum = 1 }\nfrom t | aggregate {sum a}",
                 "let this = 1\nfrom t | select {this.a}", "let default_db = 1\nfrom t", "module default_db { module default_db { let t <[{a = int}]> } }\nfrom t"):
         inputs.append({"family": "decl", "kind": "src", "text": src.replace("\\n", "\n")})
+    # (b6) relation literals: every row of up to two fields over named / unnamed / null / nested / non-literal fields, one or two rows
+    # (of equal or different shape), as the source, joined and appended (the lowering took the column names of a literal
+    # without looking: F121, repaired)
+    LF = ["a = 1", "1", "b = null", "'x'", "a = 2", "c = a", "{1}", "x = [1]", "1..2", "-1", "a = 1 + 1", "`a b` = 1", "k = @2020-01-01"]
+    lrows = ["{}"] + ["{" + f + "}" for f in LF] + ["{" + f + ", " + g_ + "}" for f in LF for g_ in LF]
+    lits = ["[]"] + ["[" + r_ + "]" for r_ in lrows] + ["[" + r1 + ", " + r2 + "]" for r1 in lrows[:16] for r2 in lrows[:16]]
+    for lt in lits:
+        inputs.append({"family": "literal", "kind": "src", "text": f"from {lt}"})
+    for lt in lits[:60] + lits[-256::5]:
+        inputs.append({"family": "literal", "kind": "src", "text": f"from t | join ({'from ' + lt}) (==a)"})
+        inputs.append({"family": "literal", "kind": "src", "text": f"from t | select {{a}} | append (from {lt})"})
+        inputs.append({"family": "literal", "kind": "src", "text": f"from {lt} | select {{a}} | sort a | take 1"})
     # (c) programs of the L1 machine incl. every scope-breaking edit, and random programs outside the safe profile
     m = model([from_("t")], l1props.alph_c10(), 3 if tier == "quick" else 4)
     progs, info = l1.mc_generate("C12-mc", m, dbset, workers=8)
